@@ -177,7 +177,9 @@ func canBeNumber(q query) bool {
 func (b *builder) processFilter(root *filterNode, flags flag, props *builderProp) (query, error) {
 	first := (flags & flagsEnum.Filter) == 0
 
-	qyInput, err := b.processNode(root.Input, (flags | flagsEnum.Filter), props)
+	// A filtered step must visit every candidate: the pruned descendant walk is
+	// only sound when all matches of the node test are kept.
+	qyInput, err := b.processNode(root.Input, (flags|flagsEnum.Filter)&^flagsEnum.SmartDesc, props)
 	if err != nil {
 		return nil, err
 	}
